@@ -1,3 +1,232 @@
-import PybtexModel.Model.Template
+/-
+C07 — Python-engine bibliography: complete, ordered, uniquely labelled, lossless.
+
+Property theorems only.  The model of the code is `Model/Template.lean` (the template evaluator
+`eval`, the sorting and label styles and `formatBibliography` = resolve (C05) → drop missing →
+sort → label → template; the templates are INPUTS of the evaluator, serialised from the live style
+objects by the harness); the notions a reader has to agree with are in `Spec/PyStyle.lean`;
+helper lemmas in `Lemmas/Template.lean`.
+-/
+import PybtexModel.Lemmas.Template
+
 namespace Pybtex.Props
+open Pybtex Pybtex.RT Pybtex.Tmpl Pybtex.Tmpl.Spec
+
+/-! ### a small database and template used by the non-vacuity theorems -/
+namespace C07Ex
+
+def s (x : String) : Str := x.toList
+
+/-- `@article{key, author = {… last}, year = {year}, title = {title}, journal = {J}}` -/
+def art (key last year title : String) : PEntry :=
+  { key := s key, type := s "article",
+    fields := CIDict.ofPairs [(s "year", s year), (s "title", s title), (s "journal", s "J")],
+    persons := CIDict.ofPairs [(s "author", [{ first := [s "A"], last := [s last] }])] }
+
+/-- an entry without author and title: label from the `key` field -/
+def misc (key label : String) : PEntry :=
+  { key := s key, type := s "misc", fields := CIDict.ofPairs [(s "key", s label)], persons := CIDict.empty }
+
+/-- cited in the order b, A, c; `b` and `c` have the same sorting key -/
+def entries : List PEntry :=
+  [art "b" "Zed" "1999" "T", art "A" "Abel" "2001" "On {TeX} things", art "c" "Zed" "1999" "T"]
+
+/-- `toplevel [sentence [names author], sentence(capfirst) [field title], sentence [em [journal], optional [year]]]` -/
+def tmpl : T :=
+  .join (.sym (s "newblock")) (.sym (s "newblock")) (.sym (s "newblock"))
+    [.sentence false false true (.str (s ", ")) [.names (s "author") (.str (s ", ")) (.str (s " and ")) (.str (s ", and "))],
+     .sentence true false true (.str (s ", ")) [.field (s "title") .none false],
+     .sentence false false true (.str (s ", "))
+       [.tag (s "em") [.field (s "journal") .none false], .optional [.field (s "year") .none false],
+        .optional [.field (s "note") .none false]]]
+
+def item (name : String) : Item :=
+  { template := tmpl, personTemplates := [(s "author", [.lit (.str (s name))])] }
+
+def items (k : Str) : Option Item :=
+  if lower k = s "b" then some (item "A Zed") else if lower k = s "a" then some (item "A Abel")
+  else if lower k = s "c" then some (item "A Zed") else none
+
+/-- what is observed of a run: `(key, label, str(text))` per entry, or the error -/
+def view (r : List Report × Except BibErr (List Formatted)) : BibErr ⊕ List (Str × Str × Str) :=
+  match r.2 with
+  | .error e => .inl e
+  | .ok fs => .inr (fs.map fun f => (f.key, f.label, toStr f.text))
+
+end C07Ex
+open C07Ex
+
+/-! ### one formatted entry per resolved citation; order -/
+
+/-- **Complete.** When `format_bibliography` succeeds, the formatted entries are — up to order —
+exactly the database entries denoted by the resolved citations (C05's `add_extra_citations`
+without the keys that have no entry): one formatted entry per resolved citation, no resolved
+citation without its entry, and the keys agree up to letter case. -/
+theorem C07_one_per_citation (es : List PEntry) (items : Str → Option Item) (cites : List Str) (mc : Int)
+    (sorting : Sorting) (labels : Labels) (rep : List Report) (fs : List Formatted)
+    (h : formatBibliography es items cites mc sorting labels = (rep, .ok fs)) :
+    (fs.map (·.key)).Perm ((resolvedEntries es cites mc).map (·.key)) ∧
+    (resolvedKeys es cites mc).map (storedEntry es) = (resolvedEntries es cites mc).map some ∧
+    (fs.map fun f => lower f.key).Perm ((resolvedKeys es cites mc).map lower) ∧
+    fs.length = (resolvedKeys es cites mc).length := by
+  obtain ⟨ls, -, hkeys, -⟩ := formatBibliography_ok h
+  have hperm : (sortEntries sorting (resolvedEntries es cites mc)).Perm (resolvedEntries es cites mc) := by
+    cases sorting with
+    | none => exact List.Perm.refl _
+    | authorYearTitle => exact sortBy_perm _ _
+  have h1 : (fs.map (·.key)).Perm ((resolvedEntries es cites mc).map (·.key)) := by
+    rw [hkeys]; exact hperm.map _
+  have h3 : (fs.map fun f => lower f.key).Perm ((resolvedKeys es cites mc).map lower) := by
+    rw [← resolvedEntries_keys]
+    have := h1.map lower
+    simpa [List.map_map, Function.comp_def] using this
+  refine ⟨h1, resolvedKeys_stored es cites mc, h3, ?_⟩
+  simpa using h3.length_eq
+
+theorem C07_one_per_citation_nonvacuous :
+    resolvedKeys entries [s "b", s "nosuch", s "A", s "B", s "c"] 2 = [s "b", s "A", s "c"] ∧
+    view (formatBibliography entries items [s "b", s "nosuch", s "A", s "B", s "c"] 2 .none .number)
+      = .inr [(s "b", s "1", s "A Zed.<newblock>T.<newblock>J, 1999."),
+             (s "A", s "2", s "A Abel.<newblock>On TeX things.<newblock>J, 2001."),
+             (s "c", s "3", s "A Zed.<newblock>T.<newblock>J, 1999.")] := by decide +kernel
+
+/-- **Order, sorting style `none`.** The formatted entries come in the order of the resolved
+citations. -/
+theorem C07_order_none (es : List PEntry) (items : Str → Option Item) (cites : List Str) (mc : Int)
+    (labels : Labels) (rep : List Report) (fs : List Formatted)
+    (h : formatBibliography es items cites mc .none labels = (rep, .ok fs)) :
+    fs.map (·.key) = (resolvedEntries es cites mc).map (·.key) ∧
+    (fs.map fun f => lower f.key) = (resolvedKeys es cites mc).map lower := by
+  obtain ⟨ls, -, hkeys, -⟩ := formatBibliography_ok h
+  have h1 : fs.map (·.key) = (resolvedEntries es cites mc).map (·.key) := hkeys
+  refine ⟨h1, ?_⟩
+  rw [← resolvedEntries_keys]
+  have := congrArg (List.map lower) h1
+  simpa [List.map_map, Function.comp_def] using this
+
+theorem C07_order_none_nonvacuous :
+    (view (formatBibliography entries items [s "c", s "*"] 2 .none .number)).elim (fun _ => []) (·.map (·.1))
+      = [s "c", s "b", s "A"] := by decide +kernel
+
+/-- The comparison of `author_year_title` — Python's `<` on the key triples
+(author/editor key, year, title) — is a strict total order: irreflexive, transitive, and two
+different triples are comparable.  (So "no later entry has a smaller key" below means sorted.) -/
+theorem C07_key_order :
+    (∀ a, tripleLt a a = false) ∧
+    (∀ a b c, tripleLt a b = true → tripleLt b c = true → tripleLt a c = true) ∧
+    (∀ a b, tripleLt a b = false → tripleLt b a = false → a = b) ∧
+    (∀ a, strLt a a = false) ∧
+    (∀ a b c, strLt a b = true → strLt b c = true → strLt a c = true) ∧
+    (∀ a b, strLt a b = false → strLt b a = false → a = b) :=
+  ⟨tripleLt_irrefl, fun _ _ _ => tripleLt_trans, fun _ _ => tripleLt_total,
+   strLt_irrefl, fun _ _ _ => strLt_trans, fun _ _ => strLt_total⟩
+
+/-- **Order, sorting style `author_year_title`.** The formatted entries are the resolved entries
+rearranged (a permutation) so that no entry has a smaller key triple than an earlier one
+(sorted), and entries with the same key triple keep their citation order (stable). -/
+theorem C07_order_ayt (es : List PEntry) (items : Str → Option Item) (cites : List Str) (mc : Int)
+    (labels : Labels) (rep : List Report) (fs : List Formatted)
+    (h : formatBibliography es items cites mc .authorYearTitle labels = (rep, .ok fs)) :
+    ∃ sorted : List PEntry, fs.map (·.key) = sorted.map (·.key) ∧
+      sorted.Perm (resolvedEntries es cites mc) ∧
+      sorted.Pairwise (fun a b => tripleLt (sortingKey b) (sortingKey a) = false) ∧
+      ∀ k, sorted.filter (fun e => sortingKey e = k) = (resolvedEntries es cites mc).filter (fun e => sortingKey e = k) := by
+  obtain ⟨ls, -, hkeys, -⟩ := formatBibliography_ok h
+  refine ⟨sortBy keyLt (resolvedEntries es cites mc), hkeys, sortBy_perm _ _, sortBy_sorted keyLt_strictWeak _, ?_⟩
+  intro k
+  by_cases hk : ∃ a ∈ resolvedEntries es cites mc, sortingKey a = k
+  · obtain ⟨a, -, rfl⟩ := hk
+    have := sortBy_stable keyLt_strictWeak a (resolvedEntries es cites mc)
+    have hf : (fun e => decide (sortingKey e = sortingKey a)) = eqv keyLt a := by
+      funext e
+      rw [Bool.eq_iff_iff, eqv_keyLt, decide_eq_true_eq]
+      exact eq_comm
+    rw [hf]; exact this
+  · have hnone : ∀ l : List PEntry, (∀ a ∈ l, a ∈ resolvedEntries es cites mc) →
+        l.filter (fun e => sortingKey e = k) = [] := by
+      intro l hl
+      rw [List.filter_eq_nil_iff]
+      intro a ha
+      simp only [decide_eq_true_eq]
+      intro hak
+      exact hk ⟨a, hl a ha, hak⟩
+    rw [hnone _ (fun a ha => (sortBy_perm keyLt _).mem_iff.1 ha), hnone _ (fun _ ha => ha)]
+
+/-- the generic facts behind `C07_order_ayt`: for ANY strict weak order `lt` (irreflexive,
+transitive, incomparability transitive) the insertion sort `sortBy` that models `sorted(…)`
+returns a sorted permutation in which equivalent elements keep their order -/
+theorem C07_sort_generic {α : Type} (lt : α → α → Bool) (hirr : ∀ a, lt a a = false)
+    (htr : ∀ a b c, lt a b = true → lt b c = true → lt a c = true)
+    (hneg : ∀ a b c, lt a b = true → lt a c = true ∨ lt c b = true) (l : List α) :
+    (sortBy lt l).Perm l ∧ SortedBy lt (sortBy lt l) ∧
+    ∀ a, (sortBy lt l).filter (eqv lt a) = l.filter (eqv lt a) :=
+  ⟨sortBy_perm lt l, sortBy_sorted ⟨hirr, htr, hneg⟩ l, fun a => sortBy_stable ⟨hirr, htr, hneg⟩ a l⟩
+
+theorem C07_order_ayt_nonvacuous :
+    -- cited b, A, c: Abel sorts first; b and c have equal keys and keep their citation order
+    (view (formatBibliography entries items [s "b", s "A", s "c"] 2 .authorYearTitle .number)).elim
+        (fun _ => []) (·.map fun x => (x.1, x.2.1)) = [(s "A", s "1"), (s "b", s "2"), (s "c", s "3")] ∧
+    (view (formatBibliography entries items [s "c", s "A", s "b"] 2 .authorYearTitle .number)).elim
+        (fun _ => []) (·.map fun x => (x.1, x.2.1)) = [(s "A", s "1"), (s "c", s "2"), (s "b", s "3")] ∧
+    sortingKey (art "b" "Zed" "1999" "T") = (s "zed  a  ", s "1999", s "T") := by decide +kernel
+
+/-! ### labels -/
+
+/-- **Number labels.** The labels are `"1"`, …, `"n"` in output order, hence pairwise distinct
+(decimal notation is injective). -/
+theorem C07_number_labels (es : List PEntry) (items : Str → Option Item) (cites : List Str) (mc : Int)
+    (sorting : Sorting) (rep : List Report) (fs : List Formatted)
+    (h : formatBibliography es items cites mc sorting .number = (rep, .ok fs)) :
+    fs.map (·.label) = (List.range fs.length).map (fun i => natToStr (i + 1)) ∧
+    (fs.map (·.label)).Nodup ∧
+    (∀ m n, natToStr m = natToStr n → m = n) ∧
+    (∀ n, natToStr n = Nat.toDigits 10 n) := by
+  obtain ⟨ls, hls, hkeys, hlab⟩ := formatBibliography_ok h
+  simp only [formatLabels, Option.some.injEq] at hls
+  have hlen : fs.length = (sortEntries sorting (resolvedEntries es cites mc)).length := by
+    have := congrArg List.length hkeys; simpa using this
+  refine ⟨?_, ?_, fun _ _ => natToStr_inj, natToStr_eq⟩
+  · rw [hlab, ← hls, hlen]; rfl
+  · rw [hlab, ← hls]; exact numberLabels_nodup _
+
+/-- **Alpha labels (restricted).** The labels are the base labels of `format_label`, in output
+order, run through the suffix loop; they are pairwise distinct PROVIDED (`alphaProviso`, a
+decidable condition on the list of base labels) no base label occurs more than 26 times and no
+base label occurring once equals a base label occurring several times followed by one of the
+suffix letters it is given.  Without the proviso: `C07_alpha_labels_neg`. -/
+theorem C07_alpha_labels_partial (es : List PEntry) (items : Str → Option Item) (cites : List Str) (mc : Int)
+    (sorting : Sorting) (rep : List Report) (fs : List Formatted)
+    (h : formatBibliography es items cites mc sorting .alpha = (rep, .ok fs)) :
+    ∃ base, (sortEntries sorting (resolvedEntries es cites mc)).mapM formatLabel = some base ∧
+      fs.map (·.label) = alphaSuffix base base [] ∧
+      (alphaProviso base = true → (fs.map (·.label)).Nodup) := by
+  obtain ⟨ls, hls, -, hlab⟩ := formatBibliography_ok h
+  simp only [formatLabels, alphaLabels, Option.map_eq_some_iff] at hls
+  obtain ⟨base, hb, rfl⟩ := hls
+  exact ⟨base, hb, hlab, fun hp => by rw [hlab]; exact alphaSuffix_nodup_top base hp⟩
+
+/-- the suffix loop alone: under the proviso its output has no repetition, for any list of base labels -/
+theorem C07_alpha_suffix_partial (base : List Str) (hp : alphaProviso base = true) :
+    (alphaSuffix base base []).Nodup ∧ (alphaSuffix base base []).length = base.length :=
+  ⟨alphaSuffix_nodup_top base hp, alphaSuffix_length _ _ _⟩
+
+theorem C07_alpha_labels_partial_nonvacuous :
+    alphaProviso [s "Zed99", s "Abe01", s "Zed99"] = true ∧
+    (view (formatBibliography entries items [s "b", s "A", s "c"] 2 .none .alpha)).elim
+        (fun _ => []) (·.map fun x => (x.1, x.2.1)) = [(s "b", s "Zed99a"), (s "A", s "Abe01"), (s "c", s "Zed99b")] := by
+  decide +kernel
+
+/-- Finding C07-alpha-suffix-collision: the full statement "alpha labels are pairwise distinct"
+is false of the code.  Base labels `ab, ab, aba` (e.g. three entries without author whose `key`
+fields are `ab`, `ab`, `aba`) receive the labels `aba, abb, aba`: the suffixed first label
+collides with the third. -/
+theorem C07_alpha_labels_neg :
+    alphaSuffix [s "ab", s "ab", s "aba"] [s "ab", s "ab", s "aba"] [] = [s "aba", s "abb", s "aba"] ∧
+    alphaProviso [s "ab", s "ab", s "aba"] = false ∧
+    (view (formatBibliography [misc "k1" "ab", misc "k2" "ab", misc "k3" "aba"]
+        (fun _ => some ⟨.lit (.str (s "x")), []⟩) [s "*"] 2 .none .alpha)).elim (fun _ => []) (·.map (·.2.1))
+      = [s "aba", s "abb", s "aba"] ∧
+    ¬ [s "aba", s "abb", s "aba"].Nodup := by
+  refine ⟨by decide +kernel, by decide +kernel, by decide +kernel, by decide⟩
+
 end Pybtex.Props
